@@ -35,6 +35,8 @@ CONSTANTS Ptrs,      \* pointer registers; "p" is one of them
           NAs, MTs, Ens, MInits,   \* configurations
           VKs,       \* kinds of stored values: "d" data register, "c" constant, "r" loaded register
           MaxSt, MaxLd, MaxLen,
+          Template,  \* <<>> or the sequence of operation kinds a program must follow:
+                     \* "ld" load, "sd" store of a data register / constant, "sr" store of a LOADED register
           Q,         \* quirk set of the transcribed mapper (AsIs = amoco as it is, {} = repaired)
           Clauses,   \* the clauses the invariant enforces
           Probe,     \* TRUE: the invariant also covers every possible next load
@@ -49,6 +51,10 @@ OffsNeg     == -2..3
 EnsLE       == {1}
 EnsBE       == {-1}
 EnsBoth     == {1, -1}
+NoTemplate  == <<>>
+(* a value loaded BEFORE a store is stored through another pointer and read back after a further store: *)
+(* its mods must be replayed with values taken in the INPUT state, not in the state being rebuilt      *)
+Reload      == <<"ld", "sd", "sr", "sd", "ld">>
 QAsIs       == AsIs
 AllClauses  == {"SymLoads", "SymMemory", "InstLoads", "InstMemory"}
 SymClauses  == {"SymLoads", "SymMemory"}
@@ -74,14 +80,15 @@ Init == /\ cf \in [na : NAs, mt : MTs, en : Ens, mi : MInits]
 
 LoadedOfSize(n) == {i \in 1..Len(prog) : prog[i].o = "ld" /\ prog[i].n = n}
 
+Kind(k) == Template = <<>> \/ (Len(prog) < Len(Template) /\ Template[Len(prog) + 1] = k)
 Store(p, off, n) ==
   /\ NSt < MaxSt
-  /\ \/ \E vk \in VKs \ {"r"} : prog' = Append(prog, [o |-> "st", p |-> p, off |-> off, n |-> n, vk |-> vk, src |-> DN[NSt + 1]])
-     \/ /\ "r" \in VKs
+  /\ \/ \E vk \in VKs \ {"r"} : Kind("sd") /\ prog' = Append(prog, [o |-> "st", p |-> p, off |-> off, n |-> n, vk |-> vk, src |-> DN[NSt + 1]])
+     \/ /\ "r" \in VKs /\ Kind("sr")
         /\ \E i \in LoadedOfSize(n) : prog' = Append(prog, [o |-> "st", p |-> p, off |-> off, n |-> n, vk |-> "r", src |-> prog[i].dst])
 
 Load(p, off, n) ==
-  /\ NLd < MaxLd
+  /\ NLd < MaxLd /\ Kind("ld")
   /\ prog' = Append(prog, [o |-> "ld", p |-> p, off |-> off, n |-> n, dst |-> RN[NLd + 1]])
 
 Next == /\ Len(prog) < MaxLen
